@@ -15,12 +15,38 @@ ASSUMPTIONS = ["paths are '/'-separated relative paths over a small alphabet",
 OUTSIDE = ["iter_changes itself (dirstate / inventory comparison, compiled), the commit builder and the recording of the "
            "changes, nested trees", "more changes / exclusions than the bound"]
 
-ALPHA = "ab/"
+ALPHA = "a./"          # '.' sorts just below '/': names such as 'a.' fall between the directory 'a' and its children 'a/...'
+
+
+def _no_dot_component(p):
+    return not any(c == "." for c in p.split("/"))
 
 
 def setup(ls):
     _validate_inside()
-    ls.modules[CM].is_inside_any = m_is_inside_any
+    # the same comparison over this harness's alphabet; '.' path components (never part of a tree-relative path, and
+    # normalised away by the compiled function) are excluded here and assumed away in the obligation
+    import itertools
+    from breezy import osutils
+    strs = ["".join(t) for n in range(0, 4) for t in itertools.product(ALPHA, repeat=n)]
+    strs = [s for s in strs if _no_dot_component(s)]
+    for d in strs:
+        for f in strs:
+            if bool(osutils.is_inside_any([d], f)) != bool(m_is_inside_any([d], f)):
+                raise RuntimeError("is_inside_any model differs on %r, %r" % (d, f))
+    from .C20 import m_is_inside, m_is_inside_or_parent_of_any
+    m = ls.modules[CM]
+    m.is_inside_any = m_is_inside_any
+    # the other compiled containment helpers, in case the code under test uses them (models validated in C20's set-up)
+    m.is_inside = m_is_inside
+    m.is_inside_or_parent_of_any = m_is_inside_or_parent_of_any
+
+
+def _tree_path(cx, name, lp):
+    p = cx.str(name, cx.choose(name + ".len", 1, lp), ALPHA)
+    for comp in p.split("/"):
+        cx.assume(comp != ".")
+    return p
 
 
 class _Change:
@@ -35,16 +61,22 @@ def ob_exclude(cx):
     changes = []
     for i in range(nch):
         shape = cx.pick("shape%d" % i, ["modified", "added", "removed", "renamed"])
-        old = None if shape == "added" else cx.str("old%d" % i, cx.choose("lo%d" % i, 1, lp), ALPHA)
+        old = None if shape == "added" else _tree_path(cx, "old%d" % i, lp)
         if shape == "modified":
             new = old
         elif shape == "removed":
             new = None
         else:
-            new = cx.str("new%d" % i, cx.choose("ln%d" % i, 1, lp), ALPHA)
+            new = _tree_path(cx, "new%d" % i, lp)
         changes.append(_Change((old, new)))
     nex = cx.choose("nexclude", 0, cx.p("nexclude"))
-    exclude = [cx.str("exclude%d" % i, cx.choose("le%d" % i, 1, lp), ALPHA) for i in range(nex)]
+    exclude = [_tree_path(cx, "exclude%d" % i, lp) for i in range(nex)]
+    # as Commit builds it: sorted(minimum_path_selection(exclude)) - ascending, and no entry inside another one
+    for i in range(nex):
+        for j in range(i):
+            cx.assume(exclude[j] < exclude[i])
+            if cx.truth(m_is_inside_any([exclude[j]], exclude[i])) or cx.truth(m_is_inside_any([exclude[i]], exclude[j])):
+                cx.assume(False)
     got = list(C.filter_excluded(iter(changes), list(exclude)))
     want = []
     for c in changes:
@@ -128,7 +160,7 @@ def ob_filter_changes(cx):
 
 def obligations(tier):
     q = tier == "quick"
-    p = dict(nchanges=1 if q else 2, nexclude=1, lpath=3)
+    p = dict(nchanges=1, nexclude=2, lpath=3)
     to = 900 if q else 7200
     return [
         Ob("exclude_filter", ob_exclude, [CM], p, to, 2 if q else 1, ["excluded", "kept"], setup=setup,
